@@ -51,9 +51,14 @@ def cases(draw, tier):
         c["sparse_dm"] = draw(st.integers(0, D - 1)) + D
     c["dict_form"] = draw(st.booleans())
     c["space_default"] = draw(st.booleans())
-    N = draw(st.integers(1, 6))
+    N = draw(st.integers(1, 6)) if draw(st.integers(0, 19)) else draw(st.integers(257, 700))     # occasionally a large data set
     U01 = st.floats(0, 1, exclude_max=True, allow_nan=False, width=64)
-    c["rows"] = [{"basis": ("Z" * n if t == "positive" or draw(st.integers(0, 2)) == 0 else draw(gen.basis_string(n))), "u": draw(U01)} for _ in range(N)]
+    if N <= 6:
+        c["rows"] = [{"basis": ("Z" * n if t == "positive" or draw(st.integers(0, 2)) == 0 else draw(gen.basis_string(n))), "u": draw(U01)} for _ in range(N)]
+    else:
+        bpool = ["Z" * n] + ([draw(gen.basis_string(n)) for _ in range(2)] if t != "positive" else [])
+        us = draw(st.lists(U01, min_size=N, max_size=N))
+        c["rows"] = [{"basis": bpool[(i * 7) % len(bpool)], "u": us[i]} for i in range(N)]
     c["nll_with_bases"] = t != "positive" and draw(st.integers(0, 3)) > 0
     if not c["nll_with_bases"]:
         for r_ in c["rows"]:
@@ -126,6 +131,19 @@ def check(c):
     fr = fid_ref(target, model)
     require(abs(f - fr) <= ftol, "fidelity:value", f"fidelity {f} != {'Uhlmann fidelity' if dens else 'squared overlap'} {fr} of the normalised states")
     require(-1e-9 <= f <= 1 + ftol, "fidelity:range", f"fidelity {f} outside [0,1]")
+    import warnings
+    alias = "target_rho" if dens else "target_psi"
+    with warnings.catch_warnings(record=True) as wrec:
+        warnings.simplefilter("always")
+        f_alias = TS.fidelity(state, space=space, **{alias: lib_t})
+    require(is_plain_float(f_alias) and abs(f_alias - f) <= 1e-12, "fidelity:deprecated-alias", f"fidelity({alias}=...) = {f_alias} differs from fidelity(target=...) = {f}")
+    require(len(wrec) >= 1, "fidelity:deprecated-alias-silent", f"the deprecated argument {alias} must still work and warn")
+    try:
+        TS.fidelity(state, lib_t, space, **{alias: lib_t})
+        both_ok = True
+    except TypeError:
+        both_ok = False
+    require(not both_ok, "fidelity:alias-and-name-accepted", "passing both the deprecated alias and the new name must be refused (TypeError)")
     f_own = TS.fidelity(state, lib_own, space)
     require(is_plain_float(f_own) and abs(f_own - 1) <= ftol, "fidelity:own-state", f"fidelity against the model's own normalised state is {f_own}, not 1")
     if not dens:
